@@ -28,6 +28,11 @@ pub trait Carrier: Sized {
     fn from_cell(t: &Ty, c: &Cell) -> Option<Self>;
     /// the embedding
     fn to_cell(&self, t: &Ty) -> Cell;
+    /// the carrier value in the text form of the case files, WITHOUT going through the dynamic value:
+    /// a null inside a Vec / set / map (which CqlValue cannot hold) is printed as `null`
+    fn show(&self, t: &Ty) -> String {
+        s_cell(&self.to_cell(t))
+    }
     /// can the carrier's own decoder be used against `t`? (typed tuples need the exact arity)
     fn deser_ok(_t: &Ty) -> bool {
         true
@@ -153,6 +158,12 @@ impl<C: Carrier> Carrier for Option<C> {
             Some(x) => x.to_cell(t),
         }
     }
+    fn show(&self, t: &Ty) -> String {
+        match self {
+            None => "null".into(),
+            Some(x) => x.show(t),
+        }
+    }
     fn deser_ok(t: &Ty) -> bool {
         C::deser_ok(t)
     }
@@ -171,6 +182,12 @@ impl<C: Carrier + Emptiable> Carrier for MaybeEmpty<C> {
         match self {
             MaybeEmpty::Empty => Cell::Val(CqlValue::Empty),
             MaybeEmpty::Value(x) => x.to_cell(t),
+        }
+    }
+    fn show(&self, t: &Ty) -> String {
+        match self {
+            MaybeEmpty::Empty => "empty".into(),
+            MaybeEmpty::Value(x) => x.show(t),
         }
     }
 }
@@ -202,6 +219,9 @@ macro_rules! ptr_carrier {
             }
             fn to_cell(&self, t: &Ty) -> Cell {
                 (**self).to_cell(t)
+            }
+            fn show(&self, t: &Ty) -> String {
+                (**self).show(t)
             }
             fn deser_ok(t: &Ty) -> bool {
                 C::deser_ok(t)
@@ -318,6 +338,9 @@ impl<C: Carrier> Carrier for RefOf<C> {
     fn to_cell(&self, t: &Ty) -> Cell {
         self.0.to_cell(t)
     }
+    fn show(&self, t: &Ty) -> String {
+        self.0.show(t)
+    }
 }
 /// `[T]` (the slice impl) for an owned Vec<T>
 pub struct SliceOf<T>(Vec<T>);
@@ -335,6 +358,9 @@ impl<C: Carrier> Carrier for SliceOf<C> {
     }
     fn to_cell(&self, t: &Ty) -> Cell {
         self.0.to_cell(t)
+    }
+    fn show(&self, t: &Ty) -> String {
+        self.0.show(t)
     }
 }
 
@@ -358,6 +384,13 @@ fn seq_val(t: &Ty, l: Vec<CqlValue>) -> CqlValue {
         ColumnType::Collection { typ: CollectionType::Set(_), .. } => CqlValue::Set(l),
         ColumnType::Vector { .. } => CqlValue::Vector(l),
         _ => CqlValue::List(l),
+    }
+}
+fn seq_name(t: &Ty) -> &'static str {
+    match t {
+        ColumnType::Collection { typ: CollectionType::Set(_), .. } => "set",
+        ColumnType::Vector { .. } => "vector",
+        _ => "list",
     }
 }
 fn cell_val(c: Cell) -> CqlValue {
@@ -384,6 +417,10 @@ impl<C: Carrier> Carrier for Vec<C> {
         let e = elem_type(t).unwrap();
         Cell::Val(seq_val(t, self.iter().map(|x| cell_val(x.to_cell(e))).collect()))
     }
+    fn show(&self, t: &Ty) -> String {
+        let e = elem_type(t).unwrap();
+        format!("{}({})", seq_name(t), self.iter().map(|x| x.show(e)).collect::<Vec<_>>().join(";"))
+    }
 }
 impl<C: Carrier + Ord> Carrier for BTreeSet<C> {
     fn gen_type(r: &mut Rng) -> Ty {
@@ -397,6 +434,10 @@ impl<C: Carrier + Ord> Carrier for BTreeSet<C> {
         let e = elem_type(t).unwrap();
         Cell::Val(seq_val(t, self.iter().map(|x| cell_val(x.to_cell(e))).collect()))
     }
+    fn show(&self, t: &Ty) -> String {
+        let e = elem_type(t).unwrap();
+        format!("{}({})", seq_name(t), self.iter().map(|x| x.show(e)).collect::<Vec<_>>().join(";"))
+    }
 }
 impl<C: Carrier + Eq + std::hash::Hash> Carrier for HashSet<C> {
     fn gen_type(r: &mut Rng) -> Ty {
@@ -409,6 +450,10 @@ impl<C: Carrier + Eq + std::hash::Hash> Carrier for HashSet<C> {
     fn to_cell(&self, t: &Ty) -> Cell {
         let e = elem_type(t).unwrap();
         Cell::Val(seq_val(t, self.iter().map(|x| cell_val(x.to_cell(e))).collect()))
+    }
+    fn show(&self, t: &Ty) -> String {
+        let e = elem_type(t).unwrap();
+        format!("{}({})", seq_name(t), self.iter().map(|x| x.show(e)).collect::<Vec<_>>().join(";"))
     }
 }
 fn map_types(t: &Ty) -> Option<(&Ty, &Ty)> {
@@ -436,6 +481,10 @@ macro_rules! map_carrier {
             fn to_cell(&self, t: &Ty) -> Cell {
                 let (kt, vt) = map_types(t).unwrap();
                 Cell::Val(CqlValue::Map(self.iter().map(|(k, v)| (cell_val(k.to_cell(kt)), cell_val(v.to_cell(vt)))).collect()))
+            }
+            fn show(&self, t: &Ty) -> String {
+                let (kt, vt) = map_types(t).unwrap();
+                format!("map({})", self.iter().map(|(k, v)| format!("{}={}", k.show(kt), v.show(vt))).collect::<Vec<_>>().join(";"))
             }
         }
     };
@@ -497,6 +546,14 @@ macro_rules! tuple_carrier {
                 }
                 Cell::Val(CqlValue::Tuple(l))
             }
+            fn show(&self, t: &Ty) -> String {
+                let ts = tuple_types(t).unwrap();
+                let mut l = vec![$(self.$i.show(&ts[$i])),+];
+                while l.len() < ts.len().min($n) {
+                    l.push("null".into());
+                }
+                format!("tuple({})", l.join(";"))
+            }
             fn deser_ok(t: &Ty) -> bool {
                 tuple_types(t).map(|ts| ts.len() == $n).unwrap_or(false)
             }
@@ -549,8 +606,8 @@ where
             // a carrier whose own type check refuses the column type (e.g. a Rust tuple shorter
             // than the CQL tuple) cannot decode; the bytes then go through the dynamic decoder
             if C::type_check(t).is_ok() {
-                match catch(std::panic::AssertUnwindSafe(|| deser_with::<C>(t, b).map(|x| x.to_cell(t)))) {
-                    Ok(r) => fmt_deser(&r),
+                match catch(std::panic::AssertUnwindSafe(|| deser_with::<C>(t, b).map(|x| x.show(t)))) {
+                    Ok(r) => fmt_shown(&r),
                     Err(_) => "panic".into(),
                 }
             } else {
@@ -615,18 +672,24 @@ borrowed_deser!(de_decimal_b, CqlDecimalBorrowed<'_>, |x, _t| {
     CqlValue::Decimal(CqlDecimal::from_signed_be_bytes_slice_and_exponent(b, sc))
 });
 
-fn decode_full<C>(t: &Ty, bytes: &[u8]) -> Result<Cell, String>
+fn decode_full<C>(t: &Ty, bytes: &[u8]) -> Result<String, String>
 where
     C: Carrier + for<'f, 'm> DeserializeValue<'f, 'm>,
 {
-    deser_with::<C>(t, bytes).map(|x| x.to_cell(t))
+    deser_with::<C>(t, bytes).map(|x| x.show(t))
+}
+fn fmt_shown(r: &Result<String, String>) -> String {
+    match r {
+        Ok(s) => format!("ok:{}", s),
+        Err(e) => format!("err:{}", e),
+    }
 }
 
 pub struct Entry {
     pub name: String,
     pub deser: Option<BorrowedDeser>,
     /// the carrier's own decoder on arbitrary bytes (one [bytes] item), embedded back
-    pub decode: Option<fn(&Ty, &[u8]) -> Result<Cell, String>>,
+    pub decode: Option<fn(&Ty, &[u8]) -> Result<String, String>>,
     pub run: fn(&Ty, &Cell) -> Result<String, String>,
     pub gen_type: fn(&mut Rng) -> Ty,
     pub embed: fn(&Ty, &Cell) -> Option<Cell>,
@@ -653,7 +716,8 @@ pub fn registry() -> Vec<Entry> {
         chrono::NaiveDate, chrono::NaiveTime, chrono::DateTime<chrono::Utc>,
         time::Date, time::Time, time::OffsetDateTime,
         secrecy_08::Secret<String>, secrecy_10::SecretBox<i64>,
-        CqlValue, Option<IpAddr>, Option<i32>, Option<String>, Option<f64>, Option<CqlVarint>, Option<Vec<i32>>, Option<CqlValue>,
+        CqlValue, Option<IpAddr>, Option<i32>, Option<String>, Option<f64>,
+        Vec<Option<i32>>, Vec<Option<String>>, BTreeSet<Option<i32>>, BTreeMap<i32, Option<String>>, Vec<(Option<i32>, Option<String>)>, Option<CqlVarint>, Option<Vec<i32>>, Option<CqlValue>,
         MaybeEmpty<i32>, MaybeEmpty<i64>, MaybeEmpty<f32>, MaybeEmpty<bool>, MaybeEmpty<uuid::Uuid>, MaybeEmpty<CqlVarint>,
         MaybeEmpty<CqlDecimal>, MaybeEmpty<IpAddr>, MaybeEmpty<CqlDate>, MaybeEmpty<CqlTimestamp>, Option<MaybeEmpty<i16>>,
         Box<i32>, Box<String>, Arc<i64>, Arc<Vec<String>>, Box<(i32, String)>,
@@ -842,7 +906,7 @@ pub fn gen_cells_case(r: &mut Rng) -> String {
         })
         .collect();
     if r.chance(1, 3) {
-        format!("Q {} {} 0 {}", carrier, s_type(&e), s_cells(&cells))
+        format!("Q {} {} {} {}", carrier, s_type(&e), r.below(2), s_cells(&cells))
     } else {
         let dim = if r.chance(1, 20) { n + 1 } else { n };
         format!("V {} {} {:x} {}", carrier, s_type(&e), dim, s_cells(&cells))
@@ -857,7 +921,7 @@ pub fn run_decode(carrier: &str, t: &Ty, bytes: &[u8]) -> Result<String, String>
         if let Some(d) = e.decode {
             let (t2, b2) = (t.clone(), bytes.to_vec());
             return Ok(match catch(std::panic::AssertUnwindSafe(move || d(&t2, &b2))) {
-                Ok(r) => fmt_deser(&r),
+                Ok(r) => fmt_shown(&r),
                 Err(_) => "panic".into(),
             });
         }
@@ -900,4 +964,40 @@ pub fn gen_decode_case(r: &mut Rng, mutate: &dyn Fn(&mut Rng, &[u8]) -> Vec<u8>)
         }
         None
     })
+}
+
+/// kind E, directed: collections whose ELEMENTS are null on the wire, decoded by carriers with an Option element
+/// (the dynamic value type cannot hold such a value; the typed carrier and its model can)
+pub fn gen_null_elem_case(r: &mut Rng) -> String {
+    fn item(r: &mut Rng, text: bool, out: &mut Vec<u8>) {
+        if r.chance(2, 5) {
+            out.extend([0xff, 0xff, 0xff, 0xff]);
+        } else if text {
+            let s = ["", "a", "zz", "\u{e9}"][r.below(4) as usize].as_bytes().to_vec();
+            out.extend((s.len() as i32).to_be_bytes());
+            out.extend(s);
+        } else {
+            out.extend(4i32.to_be_bytes());
+            out.extend((r.u64() as i32 % 5).to_be_bytes());
+        }
+    }
+    let n = r.range(1, 4) as usize;
+    let mut body: Vec<u8> = (n as i32).to_be_bytes().to_vec();
+    let (carrier, ty) = match r.below(5) {
+        0 => { for _ in 0..n { item(r, false, &mut body); } ("Vec<Option<i32>>", if r.bool() { "L(int)" } else { "S(int)" }) }
+        1 => { for _ in 0..n { item(r, true, &mut body); } ("Vec<Option<String>>", "L(text)") }
+        2 => { for _ in 0..n { item(r, false, &mut body); } ("BTreeSet<Option<i32>>", "S(int)") }
+        3 => {
+            for i in 0..n { body.extend(4i32.to_be_bytes()); body.extend((i as i32 - 1).to_be_bytes()); item(r, true, &mut body); }
+            ("BTreeMap<i32,Option<String>>", "M(int;text)")
+        }
+        _ => {
+            for _ in 0..n { body.extend(4i32.to_be_bytes()); body.extend((r.u64() as i32 % 3).to_be_bytes()); item(r, false, &mut body); }
+            ("BTreeMap<String,Option<i32>>", "M(text;int)")
+        }
+    };
+    // BTreeMap<String,..> keys must be text: rewrite the int keys of the last shape as 4 raw bytes (valid only if UTF-8; they are small ints)
+    let mut cell = (body.len() as i32).to_be_bytes().to_vec();
+    cell.extend(body);
+    format!("E {} {} {}", carrier, ty, hex_bytes(&cell))
 }
